@@ -537,7 +537,16 @@ def font_traces(job):
             if maxloc and len(locs) > maxloc:
                 head = [l for l in locs if l[0] in ("no-location", "default-explicit")]
                 rest = [l for l in locs if l[0] not in ("no-location", "default-explicit")]
-                locs = head + rng.sample(rest, maxloc - len(head))
+                # one location of every kind first, then a seeded sample of the rest
+                first, seen_kinds = [], set()
+                order = list(rest)
+                rng.shuffle(order)
+                for l in order:
+                    if l[0] not in seen_kinds:
+                        seen_kinds.add(l[0])
+                        first.append(l)
+                others = [l for l in order if l not in first]
+                locs = (head + first + others)[:max(maxloc, len(head))]
         cases = []
         for kind, u in locs:
             try:
@@ -557,7 +566,7 @@ def font_traces(job):
         if not cases:
             continue
         t["cases"] = cases
-        t["meta"] = {"font": label, "glyph": name, "gid": gid, "index": index}
+        t["meta"] = {"font": label, "glyph": name, "gid": gid, "index": index, "seed": job["seed"]}
         traces.append(t)
         notes["glyphs"] += 1
         notes["cases"] += len(cases)
@@ -744,7 +753,7 @@ def model_jobs(chk):
     quick = chk.tier == "quick"
     jobs = []
     rng = chk.rng
-    nfonts = 6 if quick else 24
+    nfonts = 5 if quick else 16
     for i in range(nfonts):
         sub = random.Random("c05-model-%d-%d" % (chk.seed, i))
         if i == 0:
@@ -753,7 +762,7 @@ def model_jobs(chk):
             m = M.build_glyf_model(sub, "model:var-%d" % i, naxes_choice=(i - 1) % len(M.AXES_CHOICES),
                                    with_avar=(i % 2 == 0), with_hvar=(i % 3 == 0), lsb_mismatch=(i % 4 != 3))
         jobs.append({"label": m.label, "data": m.data, "index": 0, "tier": chk.tier, "seed": chk.seed,
-                     "cap": 26 if quick else None, "full_lattice": True, "maxloc": 22 if quick else 90})
+                     "cap": 22 if quick else None, "full_lattice": True, "maxloc": 16 if quick else 60})
     for i in range(2 if quick else 8):
         sub = random.Random("c05-model-cff2-%d-%d" % (chk.seed, i))
         m = M.build_cff2_model(sub, "model:cff2-%d" % i)
@@ -768,9 +777,7 @@ def gen_jobs(chk):
     from . import c05_realize as RZ
 
     r = chk.tlc("MC_GlyfSem", cfg="MC_GlyfSem_gen", label="MC_GlyfSem_gen", timeout=1500, env=JAVA_ENV, workers=4)
-    gens = []
-    for payload in r.prints.get("GEN", []):
-        gens.append(json.loads(payload[0]))
+    gens = list({payload[0]: json.loads(payload[0]) for payload in r.prints.get("GEN", [])}.values())
     if len(gens) < 1000:
         raise MachineryError("MC_GlyfSem_gen exported only %d font descriptions" % len(gens))
     chk.notes["tlc_generated_fonts"] = len(gens)
@@ -778,7 +785,7 @@ def gen_jobs(chk):
     for g in gens:
         by.setdefault(g["u"][0], []).append(g)
     quick = chk.tier == "quick"
-    want = {"cp": 24 if quick else 600, "pm": 6 if quick else 80, "gv": 16 if quick else 400}
+    want = {"cp": 24 if quick else 200, "pm": 6 if quick else 80, "gv": 16 if quick else 150}
     rng = random.Random("c05-gen-%d" % chk.seed)
     jobs = []
     for kind in ("cp", "pm", "gv"):
@@ -792,7 +799,7 @@ def gen_jobs(chk):
                 raise MachineryError("realised font does not read back as described (%s): %s" % (why, json.dumps(g["u"])))
             jobs.append({"label": "tlc:" + "-".join(map(str, [x if not isinstance(x, list) else "".join(map(str, x)) for x in g["u"]])),
                          "data": data, "index": 0, "tier": chk.tier, "seed": chk.seed, "cap": None, "full_lattice": True,
-                         "maxloc": 8 if quick else 30})
+                         "maxloc": 8 if quick else 20})
     return jobs
 
 
@@ -898,6 +905,17 @@ def replay(chk, rep):
         else:
             with open(p, "rb") as f:
                 data = f.read()
+    if data is None and label.startswith("model:"):
+        # model fonts are a pure function of (seed, label): rebuild with the CURRENT tree
+        class _C:
+            tier, seed, rng = "quick", meta.get("seed", 0), None
+        for tier in ("quick", "thorough"):
+            _C.tier = tier
+            for j in model_jobs(_C):
+                if j["label"] == label:
+                    data = j["data"]
+            if data is not None:
+                break
     if data is not None:
         obs = Observers(data, meta.get("index", 0))
         raw = RawFont(data, meta.get("index", 0))
